@@ -187,13 +187,16 @@ def parse_with_formats(date_string, date_formats, settings):
         except ValueError:
             continue
         else:
-            if not ("%y" in date_format or "%Y" in date_format):
+            # %c and %x spell a whole date, %G a year, without the plain directives
+            if not any(y in date_format for y in ["%y", "%Y", "%G", "%c", "%x"]):
                 # before the day is completed: its month length depends on the year
                 today = datetime.today()
                 date_obj = date_obj.replace(year=today.year)
 
-            missing_month = not any(m in date_format for m in ["%m", "%b", "%B"])
-            missing_day = "%d" not in date_format
+            missing_month = not any(
+                m in date_format for m in ["%m", "%b", "%B", "%c", "%x"]
+            )
+            missing_day = not any(d in date_format for d in ["%d", "%c", "%x"])
             if missing_month and missing_day:
                 period = "year"
                 date_obj = set_correct_month_from_settings(date_obj, settings)
